@@ -27,8 +27,9 @@ Fault = {"job": "/b/0.10", "phase": "schedule"|"transfer"|"execute",
         test-suite's FAIL_STOP does)
 Every deletion is logged with the files that really existed (the loss record).
 Optional ordering gates of a fault (C17): "hold": [jobs] - those jobs stay inside their command
-(RUNNING) until the faulty job gets past its failures (for ever when it never does: the engine has to
-cancel them); "after": [jobs] - the faulty job's first attempt waits until those jobs completed.
+(RUNNING) until the faulty job gets past its failures, or - when it fails for good - until 50 loop
+turns after its `_run_job` returned FAILED (the engine cancels the siblings it knows of at once; a sibling
+task created later is not cancelled and would, like a real job, just finish); "after": [jobs] - the faulty job's first attempt waits until those jobs completed.
 """
 from __future__ import annotations
 
@@ -565,6 +566,32 @@ def install_hooks():
             H.events.append(dict(t=rec["end"], ev="executor_end", wf=rec["wf"], outcome=rec["outcome"]))
 
     StreamFlowExecutor.run = run
+
+    orig_run_job = ExecuteStep._run_job
+
+    async def _run_job(self, job, inputs, connectors):
+        status = await orig_run_job(self, job, inputs, connectors)
+        key = (job.name, "execute")
+        if status == Status.FAILED and key in H.passed and not H.passed[key].is_set():
+            # The faulty job failed for good.  The step cancels the siblings it knows of within a few loop
+            # turns; siblings whose tasks are created later are not cancelled by the engine and would, as
+            # real jobs do, simply finish: release the held ones after a grace of 50 loop turns.
+            ev = H.passed[key]
+
+            async def release():
+                Sched.inflight += 1
+                try:
+                    for _ in range(50):
+                        await asyncio.sleep(0)
+                finally:
+                    Sched.inflight -= 1
+                H.ev("hold_released_after_definitive_failure", job=job.name)
+                ev.set()
+
+            H.wf_refs.append(asyncio.ensure_future(release()))
+        return status
+
+    ExecuteStep._run_job = _run_job
 
     orig_sync = RollbackFailureManager._synchronize_workflows
 
